@@ -452,9 +452,12 @@ class HttpFuzz:
             res = self.run_body(method, url, who, headers, body)
         else:
             res = H.run(self.clients[who], method, url, headers)
+        if who != "anon" and (endpoint in ("logout", "api-login") or path.startswith(("/logout", "/api/login"))):
+            self.clients[who] = self.fresh_client(who)      # the request may have ended the session
         ch = self.ch
         ch.evaluations += 1
         ch.count(f"status:{res.status}")
+        ch.count(f"role:{who}:{'denied' if res.status == 401 else 'served'}")
         ch.count(f"route:{endpoint}")
         if res.status in (200, 206) or (400 <= res.status < 500 and res.status not in (401, 404)) or query:
             ch.nontrivial.add((method, url, who, repr(headers), body[0] if body else None))
